@@ -9,7 +9,7 @@ From Coq.Strings Require Import Byte.
 From Coq.Floats Require Import SpecFloat.
 Import ListNotations.
 From BWTable Require Import Cells Fmt StrOrder FmtProofs Sort SortProofs ValueOrder SortSpec SortSpecProofs Limit LimitProofs
-  Reduce Expr Exec ValueEngine ValueEngineProofs.
+  TimeLaw Reduce Expr Exec ValueEngine ValueEngineProofs.
 Open Scope Z_scope.
 
 (* ==== THE CURRENT ENGINE: cells are compared BY VALUE (repairs fd030b0 / ca461fe; model ValueOrder.v, ValueEngine.v) ====
@@ -139,21 +139,29 @@ Print Assumptions C12_limit_of_sorted_as_found_partial.
 
 Definition one_col' (cells : list cell) : list row := map (fun c => [(1%N, c)]) cells.
 
-(* Time anchors: CHRONOLOGICAL order, for every rendering [fmt_time] of (instant, zone) that obeys the RFC3339Nano order
-   law - within one zone, renderings of equal length (same number of fraction digits) order like the instants - and
-   has no outer white space.  D12 then also admits key columns of anchors whose printed form is that rendering, all in
-   one zone and of one length (tm_ok_o / tm_pair_o).  The law is an ORACLE about time.Format: it is checked on every
-   generated case by the correspondence (value order of every such table) and shown consistent below. *)
-Theorem C12_sorted_time_as_found_partial : forall (fmt_time : Z -> Z -> str),
-  (forall off n1 n2, in_int64 n1 = true -> in_int64 n2 = true ->
-     List.length (fmt_time n1 off) = List.length (fmt_time n2 off) ->
-     str_compare (fmt_time n1 off) (fmt_time n2 off) = Z.compare n1 n2) ->
-  (forall n off, trim_space (fmt_time n off) = fmt_time n off) ->
-  forall srt ks rows out, sorter_ok srt -> ks <> [] ->
-  d12_gen (tm_ok_o fmt_time) tm_pair_o no_lit ks rows = true -> order_by_with srt (Some ks) rows = Ok out ->
+(* Time anchors, comparator AS FOUND (Time.Format(RFC3339Nano) strings): CHRONOLOGICAL order when all anchors of a key
+   column are in ONE zone and of ONE precision.  No oracle hypothesis any more: the rendering is the Go-faithful Gallina
+   formatter of the Values family (coq/Values/TimeCodec.v, tied to time.Format by the C05 correspondence and compared
+   with every anchor cell of this check inside Coq) and the law is its order theorem (C05_rfc3339nano_order).
+   d12_time accepts an anchor cell when its printed form IS that rendering of its instant and zone (years 0000-9999, zone
+   a whole number of minutes) and two anchors of a column when zone offset and number of fraction digits agree; across
+   zones or precisions the statement is false: C12_zone_refuted, C12_precision_refuted below. *)
+Theorem C12_sorted_time_as_found_partial : forall srt ks rows out, sorter_ok srt -> ks <> [] ->
+  d12_time ks rows = true -> order_by_with srt (Some ks) rows = Ok out ->
   Permutation rows out /\ spec_sorted ks out.
-Proof. exact order_by_sorted_d12_time. Qed.
+Proof. exact order_by_sorted_d12_time_proved. Qed.
 Print Assumptions C12_sorted_time_as_found_partial.
+
+(* the domain is inhabited by real renderings: 2020-01-01T00:00:00Z, 2019-12-31T23:30:00Z, 2021-06-15T12:00:00Z (computed
+   by the formatter), descending *)
+Definition real_tm (ns : Z) : cell := CT (mkTim ns 0 (BWValues.TimeCodec.fmt_rfc3339nano (vtime (mkTim ns 0 [])))).
+Example C12_time_domain_nonvacuous :
+  d12_time [mkKey 1%N true] (one_col' [real_tm 1577836800000000000; real_tm 1577835000000000000; real_tm 1623758400000000000]) = true /\
+  order_by (Some [mkKey 1%N true]) (one_col' [real_tm 1577836800000000000; real_tm 1577835000000000000; real_tm 1623758400000000000]) =
+    Ok (one_col' [real_tm 1623758400000000000; real_tm 1577836800000000000; real_tm 1577835000000000000]) /\
+  t_str (mkTim 0 0 (BWValues.TimeCodec.fmt_rfc3339nano (vtime (mkTim 1577836800000000000 0 [])))) =
+    list_byte_of_string "2020-01-01T00:00:00Z".
+Proof. vm_compute. repeat split; reflexivity. Qed.
 
 (* ... and float64 NUMERICALLY on the domain "finite, 0 <= f < 10^25, at most six decimals" under the analogous law for
    %032f (oracle; checked on every generated case; no Gallina instance, so the consistency of THIS law is not shown) *)
@@ -171,8 +179,8 @@ Theorem C12_sorted_time_float_as_found_partial : forall (fmt_time : Z -> Z -> st
 Proof. exact order_by_sorted_d12_oracles. Qed.
 Print Assumptions C12_sorted_time_float_as_found_partial.
 
-(* the time law is consistent and the extended D12 is inhabited: a toy rendering satisfies the law, and a table with a
-   descending anchor column rendered by it is in D12 and gets sorted chronologically *)
+(* (kept from before the Values formatter existed: the hypothesis form of the law is consistent - a toy rendering
+   satisfies it) *)
 Definition toy_tm (ns : Z) : cell := CT (mkTim ns 0 (toy_fmt_time ns 0)).
 Example C12_time_law_consistent :
   ((forall off n1 n2, in_int64 n1 = true -> in_int64 n2 = true ->
